@@ -45,6 +45,9 @@ type c21Case struct {
 	Bounds []c21F   `json:"bounds"`
 	Keyed  bool     `json:"keyed"`
 	Obs    []c21Obs `json:"obs"`
+	// MidScrape > 0: the exporter is also scraped after that many observations
+	// (the same exporter is scraped again at the end)
+	MidScrape int `json:"mid_scrape,omitempty"`
 }
 
 func c21Lit(f float64) string {
@@ -127,8 +130,38 @@ func runC21x(c c21Case, st *vstat.Stats) *vstat.Failure {
 	if !c.Keyed {
 		getModel("")
 	}
+	// the exporter is registered on the empty store, as the server does
+	store := metrics.NewStore()
+	sc, err := hx.NewScraper(store)
+	if err != nil {
+		return vstat.Failf("harness", "%v", err)
+	}
+	defer sc.Close()
+	for _, mm := range obj.Metrics {
+		if err := store.Add(mm); err != nil {
+			return vstat.Failf("harness", "%v", err)
+		}
+	}
+	checkExport := func(phase string) *vstat.Failure {
+		f := c21CheckExport(sc, c, models, bounds, phase)
+		if f != nil && phase != "final scrape" {
+			f.Sig = "mid-scrape:" + f.Sig
+		}
+		if f != nil && phase == "final scrape" && c.MidScrape > 0 {
+			f.Sig = "scrape-after-scrape:" + f.Sig
+		}
+		if f != nil {
+			f.Msg = phase + ": " + f.Msg
+		}
+		return f
+	}
 	ts := time.Unix(1700000000, 0)
 	for i, o := range c.Obs {
+		if c.MidScrape > 0 && i == c.MidScrape {
+			if f := checkExport("scrape between observations"); f != nil {
+				return f
+			}
+		}
 		key := ""
 		if c.Keyed {
 			key = o.Key
@@ -223,18 +256,11 @@ func runC21x(c c21Case, st *vstat.Stats) *vstat.Failure {
 			return vstat.Failf("sum", "key %q sum %v model %v", key, gs, mo.sum)
 		}
 	}
-	// exported form
-	store := metrics.NewStore()
-	sc, err := hx.NewScraper(store)
-	if err != nil {
-		return vstat.Failf("harness", "%v", err)
-	}
-	defer sc.Close()
-	for _, mm := range obj.Metrics {
-		if err := store.Add(mm); err != nil {
-			return vstat.Failf("harness", "%v", err)
-		}
-	}
+	return checkExport("final scrape")
+}
+
+// c21CheckExport scrapes and compares the histogram series with the model.
+func c21CheckExport(sc *hx.Scraper, c c21Case, models map[string]*c21Model, bounds []float64, phase string) *vstat.Failure {
 	fams, text, gerr, perr := sc.Gather()
 	if gerr != nil || perr != nil {
 		return vstat.Failf("scrape-error", "gather=%v parse=%v\n%s", gerr, perr, text)
@@ -396,6 +422,10 @@ func TestC21(t *testing.T) {
 				}
 				c.Obs = keep
 				hasNaN = false
+			}
+			if len(c.Obs) >= 2 && rapid.Bool().Draw(rt, "midscrape") {
+				c.MidScrape = rapid.IntRange(1, len(c.Obs)-1).Draw(rt, "midat")
+				st.Class("scraped-between-observations")
 			}
 			st.Eval()
 			if atBoundary && aboveAll {
